@@ -85,7 +85,12 @@ def verdict(desc, root, modules=None):
         eng.load(root)
     except Exception as e:  # noqa
         return False, f'scan raised {e!r}', eng
-    mods = modules or [f'{eng.pkg}.{t}' for t in eng.tasks]
+    try:
+        # the list of packages the gate looks at is what its own scan reports
+        mods = modules or compliant._scan()
+    except Exception as e:  # noqa
+        return False, f'_scan raised {e!r}', eng
+    eng.seen_by_gate = list(mods)
     try:
         ok = compliant._verify(mods, True, False)
     except Exception as e:  # noqa
@@ -142,7 +147,7 @@ def negatives(kinds, desc):
     mine = [a for a in desc['algs'] if a['t'] == 'tp']
     for a in mine:
         for b in ALG_BREAKS:
-            if desc['style'] == 'auto' and b == 'alg-base':
+            if desc['style'] in ('auto', 'custom') and b == 'alg-base':
                 continue
             yield {'what': b, 't': 'tp', 'n': a['n']}
         if a['in']:
@@ -168,7 +173,7 @@ def work(args):
     verdicts = set()
     cli = []
     for kinds in all_mixes():
-        for style in ('legacy', 'auto'):
+        for style in ('legacy', 'auto', 'custom'):
             for pat in (0, 1, 2):
                 n += 1
                 if n % nshards != shard:
@@ -186,6 +191,11 @@ def work(args):
                         f'package offering {label} ({style} style) rejected: '
                         f'{why or per_rule(desc, root)}', {'desc': desc})
                 else:
+                    want = sorted(f'{eng.pkg}.{t}' for t in eng.tasks)
+                    if sorted(eng.seen_by_gate) != want:
+                        ctx.violation(f'C16/gate-does-not-see-package/{label}/{style}',
+                                      f'the gate checked {sorted(eng.seen_by_gate)}, the engine has {want}',
+                                      {'desc': desc})
                     try:
                         tags, _b = schedulable(desc, root)
                         if tags != set(eng.tags()):
@@ -295,7 +305,7 @@ def run(ctx):
     cov = {
         'evaluations': c.get('accept_cases', 0) + c.get('reject_cases', 0) + c.get('cli_runs', 0),
         'distinct_nontrivial': len(verdicts),
-        'rule': 'accept: 15 factory mixes x 2 styles x 3 reference patterns + every rule-conforming DAG engine on '
+        'rule': 'accept: 15 factory mixes x 3 styles (deprecated bots, self-registering, self-registering with hand-written factories) x 3 reference patterns + every rule-conforming DAG engine on '
                 '<=2 (thorough 3) algorithms; reject: every mix (pattern 1) x every applicable single breakage '
                 '(12 algorithm-level, 8 reference-level, 4 moment-level, 4 factory-level kinds) at every position; '
                 'distinct_nontrivial = distinct (breakage kind | mix, style, verdict) triples observed',
